@@ -13,6 +13,7 @@ Tie (E1), five kinds of cases, every one executed on the real backends and compa
            vectorized for default/torch/jax and scalar for default/fortran; delayed variants (roll buffer) compared across backends only
   rollnet: user-level roll(x, n) with positive / negative literal shifts on shaped vector variables, vectorize=False, four backends
   cadence: x' = u_k with integer input and DECIMAL step sizes (1e-4 .. 0.3) x multiples 1..40: updates per stored row, row count, time axis
+  lits   : float literals and rational constants written in the equation text (dyadic: exact; 0.1, 1/3, ...: tolerance, support), four backends
   pop    : PopulationTemplate + Connectivity, plain matrix (matvec) and coupling EdgeTemplate (wsum / broadcast_pre / broadcast_post)
   scipy  : (support, tolerance) adaptive solver on a stiff-ish nonlinear model: no backend may fail alone; values within rtol."""
 import json, os, math
@@ -267,6 +268,28 @@ def impl_cadence(case):
     finally:
         pyr.reset_pyrates()
 
+def impl_lits(case):
+    """numeric literals written in the equation text: x' = <float literal>*k + <rational constant>"""
+    import numpy as np, pyr
+    from pyr import frac
+    from pyrates import OperatorTemplate, NodeTemplate, CircuitTemplate
+    b = case["backend"]
+    pyr.reset_pyrates()
+    try:
+        op = OperatorTemplate(name="lop", path=None, equations=[f"x' = {case['c']}*k + {case['q']}"], variables={"x": "output(0.0)", "k": 1.0})
+        net = CircuitTemplate(name="net", path=None, nodes={"p": NodeTemplate(name="p", path=None, operators=[op])})
+        func, args, names, smap = net.get_run_func("vf", 0.125, file_name=_fname("q"), vectorize=False, backend=b, float_precision="float64",
+                                                   solver="euler", in_place=False, clear=False, verbose=False)
+        names = list(names); i = names.index("p/lop/k"); outs = []
+        for k in case["ks"]:
+            a = list(args)
+            a[i] = _like(args[i], float(Fr(k)), "float64"); a[2] = _like(args[2], np.zeros(np.shape(args[2])), "float64")
+            v = float(_call(func, a, b)[0])
+            outs.append(v if case.get("support") else frac(v))
+        return dict(outs=outs)
+    finally:
+        pyr.reset_pyrates()
+
 def impl_consts(case):
     """x' = pi*k with k a power of two: the value of the named constant on each backend, bit for bit"""
     import numpy as np, pyr
@@ -452,7 +475,7 @@ def impl_hooks(case):
     return out
 
 def impl(case):
-    return {"interp": impl_interp, "net": impl_net, "traj": impl_traj, "hooks": impl_hooks, "pop": impl_pop, "rollnet": impl_rollnet, "consts": impl_consts, "cadence": impl_cadence}[case["kind"]](case)
+    return {"interp": impl_interp, "net": impl_net, "traj": impl_traj, "hooks": impl_hooks, "pop": impl_pop, "rollnet": impl_rollnet, "consts": impl_consts, "cadence": impl_cadence, "lits": impl_lits}[case["kind"]](case)
 
 # =============================================================================================== generators
 def dy(rng, lo, hi, den):
@@ -871,6 +894,17 @@ def generate(ctx):
         for b in PY_BACKENDS + (["fortran"] if i < n_cad_f else []):
             for sv in SOLVERS[b]:
                 cases.append(dict(m, backend=b, solver=sv, vectorize=(b != "fortran" and i % 3 == 0), mid=f"cad{i}"))
+    # numeric literals in the equation text: float literals and rational constants (dyadic: exact; otherwise tolerance, support)
+    DY_C, DY_Q = ["0.125", "0.75", "2.5", "1.5e0", "0.375"], [("7/2", "7/2"), ("2**(-3)", "1/8"), ("5/4", "5/4"), ("13/8", "13/8"), ("3/2", "3/2")]
+    ND_C, ND_Q = ["0.1", "0.3", "1.5e-1", "0.7"], [("1/3", "1/3"), ("7/2", "7/2"), ("2/7", "2/7"), ("1/10", "1/10")]
+    for i in range(3 if q else 12):
+        c = rng.choice(DY_C); qt, qv = rng.choice(DY_Q); ks = [str(Fr(2) ** rng.randint(-3, 3)) for _ in range(2)]
+        for b in PY_BACKENDS + ["fortran"]:
+            cases.append(dict(kind="lits", backend=b, mid=f"lit{i}", c=c, q=qt, qval=qv, ks=ks))
+    for i in range(2 if q else 8):
+        c = rng.choice(ND_C); qt, qv = rng.choice(ND_Q); ks = [str(Fr(2) ** rng.randint(-3, 3)) for _ in range(2)]
+        for b in PY_BACKENDS + ["fortran"]:
+            cases.append(dict(kind="lits", backend=b, mid=f"litn{i}", c=c, q=qt, qval=qv, support=True, ks=ks))
     # named constants: pi on every backend, bit for bit
     for b in PY_BACKENDS + ["fortran"]:
         cases.append(dict(kind="consts", backend=b, mid="consts", ks=[str(Fr(2) ** rng.randint(-6, 6)) for _ in range(3)]))
@@ -910,6 +944,8 @@ def nontrivial(case):
         return True
     if k == "cadence":
         return case["m"] >= 2
+    if k == "lits":
+        return True
     if k == "traj":
         return case["steps"] >= 2 and (case["backend"] != "default" or case["solver"] != "euler" or case["vectorize"])
     if k == "hooks":
@@ -961,6 +997,8 @@ Definition k_okI (e : backend * solver * list Qc * nat * nat * list Qc) :=
 Definition k_okS (e : backend * solver * list Qc * nat * nat * list Qc) :=
   let '(b, sv, u, steps, ss, o) := e in row_eqb (k_rows (run_spec sv (k_sys u) 1%Qc steps ss [Q2Qc 0])) o.
 Definition k_guard (e : backend * solver * list Qc * nat * nat * list Qc) := let '(b, sv, u, steps, ss, o) := e in heun_time_free b sv (k_sys u).
+(* literals *)
+Definition lt_ok (e : Qc * Qc * Qc * Qc) := let '(c, k, q0, o) := e in qeq (Qcplus (Qcmult c k) q0) o.
 (* named constants *)
 Definition c_okI (e : backend * Qc * Qc) := let '(b, k, o) := e in qeq (Qcmult k (backend_pi b)) o.
 Definition c_okS (e : backend * Qc * Qc) := let '(b, k, o) := e in qeq (Qcmult k pi_f64) o.
@@ -1027,6 +1065,10 @@ def entries(case, out):
         if agree and "rows2" in out:        # the model's cadence is the exact-rational one; compared only where the float quotients round to it
             sv = "Euler" if case["solver"] == "euler" else "Heun"
             es.append(("K", f"({BK[case['backend']]}, {sv}, {crow([str(u) for u in case['u']])}, {ex[0]}, {ex[2]}, {crow([str(v) for v in out['rows2']])})"))
+    elif k == "lits":
+        from decimal import Decimal
+        for kk, o in zip(case["ks"], out["outs"]):
+            es.append(("LT", f"({cq(Fr(Decimal(case['c'])))}, {cq(kk)}, {cq(case['qval'])}, {cq(o)})"))
     elif k == "consts":
         for kk, o in zip(case["ks"], out["outs"]):
             es.append(("C" if case.get("const", "pi") == "pi" else "CE", f"({BK[case['backend']]}, {cq(kk)}, {cq(o)})"))
@@ -1076,7 +1118,7 @@ def entries(case, out):
 
 STREAMS = {  # stream -> (okI, okS, guard or None)
     "I": ("i_okI", "i_okS", "i_guard"), "R": ("r_okI", "r_okS", None), "N": ("n_ok", "n_ok", None),
-    "T": ("t_okI", "t_okS", "t_guard"), "P": ("p_okI", "p_okS", None), "X": ("x_ok", "x_ok", None), "L": ("l_okI", "l_okS", None), "C": ("c_okI", "c_okS", "c_guard"), "K": ("k_okI", "k_okS", "k_guard"), "CE": ("ce_ok", "ce_ok", None), "H1": ("h_idx", "h_idx", None), "H2": ("h_rngI", "h_rngS", None),
+    "T": ("t_okI", "t_okS", "t_guard"), "P": ("p_okI", "p_okS", None), "X": ("x_ok", "x_ok", None), "L": ("l_okI", "l_okS", None), "C": ("c_okI", "c_okS", "c_guard"), "K": ("k_okI", "k_okS", "k_guard"), "LT": ("lt_ok", "lt_ok", None), "CE": ("ce_ok", "ce_ok", None), "H1": ("h_idx", "h_idx", None), "H2": ("h_rngI", "h_rngS", None),
     "H3": ("h_var", "h_var", None), "H4": ("h_roll", "h_roll", None), "H5": ("h_shiftI", "h_shiftS", None)}
 
 def model_compare(ctx, cases, outs, tag):
@@ -1152,6 +1194,15 @@ def support_compare(ctx, cases, outs):
                 for a, b in zip(r32, r64):
                     n32 += 1
                     worst32 = max(worst32, abs(float(Fr(a)) - float(Fr(b))) / max(1.0, abs(float(Fr(b)))))
+    lg, worstl = {}, 0.0
+    for c, o in zip(cases, outs):
+        if c["kind"] == "lits" and c.get("support") and isinstance(o, dict) and "outs" in o:
+            lg.setdefault(c["mid"], []).append(o["outs"])
+    for grp in lg.values():
+        for other in grp[1:]:
+            for a_, b_ in zip(grp[0], other):
+                worstl = max(worstl, abs(a_ - b_) / max(1e-300, abs(a_)))
+    notes["literal_models_nondyadic"] = len(lg); notes["literal_max_rel_diff"] = worstl; notes["literal_tolerance"] = 1e-12
     cad = [c for c in cases if c["kind"] == "cadence"]
     notes["cadence_cases"] = len(cad)
     notes["cadence_float_quotient_not_integral"] = sum(1 for c in cad if float(c["dts"]) / float(c["dt"]) != float(c["m"]))
@@ -1171,6 +1222,14 @@ def support_compare(ctx, cases, outs):
     for i, (c, o) in enumerate(zip(cases, outs)):
         if c["kind"] == "traj" and c.get("support"):
             groups.setdefault(c["mid"], []).append(i)
+    lgi = {}
+    for i, (c, o) in enumerate(zip(cases, outs)):
+        if c["kind"] == "lits" and c.get("support"):
+            lgi.setdefault(c["mid"], []).append(i)
+    for idx in lgi.values():
+        okl = [i for i in idx if isinstance(outs[i], dict) and "outs" in outs[i]]
+        if okl and len(okl) < len(idx):
+            lone |= set(idx) - set(okl)
     worst = 0.0
     for mid, idx in groups.items():
         ok = [i for i in idx if "rows" in outs[i]]
@@ -1254,7 +1313,7 @@ def check(ctx):
     ctx.note(f"E1: {len(cases)} cases {kinds}; real-vs-Impl mismatches {len(badI)}, real-vs-Spec mismatches {len(badS)} "
              f"(outside the guard heun_time_free: {len([i for i in badS if i in guard_viol])}), crashes {len(crashed)}; support: {notes}")
     if (notes["float32_max_rel_err"] > notes["float32_tolerance"] or notes["adaptive_max_rel_diff"] > notes["adaptive_tolerance"]
-            or notes["transcendental_max_rel_diff"] > notes["transcendental_tolerance"]):
+            or notes["transcendental_max_rel_diff"] > notes["transcendental_tolerance"] or notes["literal_max_rel_diff"] > notes["literal_tolerance"]):
         ctx.note("SUPPORT stream outside its tolerance (does not decide the property; look at it): " + json.dumps(notes))
     def witness_check(f):
         w = [i for i, c in enumerate(cases) if c.get("finding") == f["id"]]
